@@ -884,7 +884,8 @@ Proof.
   - destruct (need =? 0); cbn [fst snd]; [exact I|]. destruct t; cbn [io_agrees]; [destruct got; discriminate|reflexivity].
   - destruct (need =? 0); cbn [fst snd]; [exact I|].
     destruct (need <=? len c); cbn [fst snd]; [exact I|].
-    specialize (IH (need - len c) true t). destruct (read_full_aux (need - len c) true cs t) as [[r e] rest].
+    specialize (IH (need - len c) (got || negb (len c =? 0)) t).
+    destruct (read_full_aux (need - len c) (got || negb (len c =? 0)) cs t) as [[r e] rest].
     exact IH.
 Qed.
 
